@@ -137,6 +137,7 @@ def run_scenarios(scens, servertype, timeout, seed):
             ser = scen["ser"]
             lab.base = len(lab.net.socks)
             lab.log = []
+            sc.set_budget(4000)
             lab.validator = scen["validator"]
             rc = lab.raw()
             lab.log.append({"e": "First", "c": rc.cid, "accept": scen["accept"], "mustreason": scen["mustreason"]})
@@ -171,7 +172,7 @@ def run_scenarios(scens, servertype, timeout, seed):
             tr.append({"e": "Ended", "c": rc.cid})
             tr.append({"e": "End", "slots": lab.server_connections(), "open": 0, "loop_alive": lab.driver.crashed is None,
                        "witness_ok": True, "fresh_ok": True, "hang": hang})
-            traces.append(tr)
+            traces.append(tr[:400] + tr[-2:] if len(tr) > 402 else tr)
             if hang or lab.driver.crashed is not None:
                 # start over with a new daemon so that later scenarios are still meaningful
                 lab.close()
